@@ -37,14 +37,21 @@ VId(v) == VIdTable[v]
 
 \* ------------------------------------------------------------------ tasks and dependencies
 \* a diagonal request (a = b) is a longitudinal task; a # b is off-diagonal even when the two values coincide
-NSab(a, b, v, w) == IF a = b THEN "L" \o ToString(v) ELSE "O" \o ToString(Min(v,w)) \o "_" \o ToString(Max(v,w))
+\* off-diagonal tasks carry the ORDERED pair of values: the code compares the parameter pair position by position
+NSab(a, b, v, w) == IF a = b THEN "L" \o ToString(v) ELSE "O" \o ToString(v) \o "_" \o ToString(w)
 KeyStr(K) == ToString(K[1]) \o ToString(K[2])
 RootTable == [K \in Keys |-> IF IsShear(K) THEN "S" \o KeyStr(K)
                              ELSE NSab(K[1], K[2], VId(BaseVal(K[1])), VId(BaseVal(K[2])))]
 Root(K) == RootTable[K]
 
 \* dependencies of a task as a bag (the code pushes one queue entry per requested key, duplicates included)
-RotDep(K, k)  == NSab(k[1], k[2], VId(RotVal(K, k[1])), VId(RotVal(K, k[2])))
+\* position of a specification axis in the solver's frame: numpy.linalg.eigh returns ascending eigenvalues; Spectrum(K) lists
+\* <+, -, 0> (classes A-C) and <+1, +1, -1> (class D, where LAPACK returns the shear-plane vector before the axis vector)
+PosOf(K, a) == IF KClass(K) = "D" THEN (CASE a = 3 -> 1 [] a = 2 -> 2 [] a = 1 -> 3)
+                                  ELSE (CASE a = 2 -> 1 [] a = 3 -> 2 [] a = 1 -> 3)
+RotDep(K, k)  == LET f == IF PosOf(K, k[1]) <= PosOf(K, k[2]) THEN k[1] ELSE k[2]
+                     g == IF f = k[1] THEN k[2] ELSE k[1]
+                 IN NSab(k[1], k[2], VId(RotVal(K, f)), VId(RotVal(K, g)))
 DepBagOfKey(K) ==
   LET mk  == ModKeys(K)
       rk  == RotKeys(K)
